@@ -19,6 +19,7 @@ import (
 
 func init() {
 	vRegister("l2_nowrite", H_l2_nowrite)
+	vRegister("l3_nowrite", H_l3_nowrite)
 	vRegister("l2_alias", H_l2_alias)
 }
 
@@ -66,6 +67,26 @@ func H_l2_nowrite() {
 		}
 		c.st = st
 	}
+	c.nowrite()
+	vReach("end")
+}
+
+// L3: the same on concrete skeleton tries (short-node tables, 257-bit nodes, long keys,
+// deep scan stacks), fresh or loaded, with a symbolic query.
+func H_l3_nowrite() {
+	c := &vT{optc: vParam("opt"), enc: vParam("enc")}
+	c.keys = vSkeleton(vParam("skel"))
+	c.n = len(c.keys)
+	vConcreteValues(c, vParam("runs"))
+	c.build()
+	if vParam("loaded") == 1 {
+		c.st = c.reload(c.st)
+	}
+	c.nowrite()
+	vReach("end")
+}
+
+func (c *vT) nowrite() {
 	q := vString("q", vParam("lq"))
 	api := vParam("api")
 	st := c.st
@@ -127,7 +148,6 @@ func H_l2_nowrite() {
 		}
 	}
 	vAssert(vWrites() == 0, "C11.no-shared-write")
-	vReach("end")
 }
 
 func (c *vT) readAPI(st *SlimTrie, api int, q string) {
@@ -142,7 +162,15 @@ func (c *vT) readAPI(st *SlimTrie, api int, q string) {
 		if c.enc == vEncI32 {
 			st.GetI32(q)
 		}
-		st.Stat()
+		s1 := st.Stat()
+		// what a reader does with its own result is its own business: a caller that rewrites the
+		// report it was handed must not reach state shared with other readers
+		if s1 != nil {
+			for i := range s1.Levels {
+				s1.Levels[i].Total += 7
+			}
+			s1.KeyCnt++
+		}
 	case 3:
 		if vOptComplete(c.optc) {
 			st.ScanFrom(q, true, true, func(k, v []byte) bool { return true })
